@@ -10,6 +10,7 @@ CONSTANTS
   MaxFail = 0
   MaxQ0 = 0
   Kinds = {"P1", "P2"}
+  Parts = {TRUE, FALSE}
   MaxCancel = 1
   MaxFault = 0
   Dev = {"quota_uncapped"}
